@@ -96,6 +96,13 @@ impl RuleSetReport {
 pub struct ContainerRebuildSummary { _p: core::marker::PhantomData<u8> }
 #[verifier::external_body]
 pub struct DirtyIds { _p: core::marker::PhantomData<u8> }
+impl Default for ContainerRebuildSummary {
+    // the real type derives Default: nothing changed, no dirty ids
+    #[verifier::external_body]
+    fn default() -> (r: Self)
+        ensures !r.changed_spec(), r.dirty_spec() == Seq::<Value>::empty()
+    { unimplemented!() }
+}
 impl ContainerRebuildSummary {
     pub uninterp spec fn changed_spec(&self) -> bool;
     pub uninterp spec fn dirty_spec(&self) -> Seq<Value>;
